@@ -305,7 +305,14 @@ def _flaxmap_case(ctx, model, nets, key, x, oracle):
         ctx.case(case, None)
         ctx.count("flaxmap:network-rejects-canonical-input")
         if impl != ("err", net_err):
-            ctx.disagree("flax.flaxmap.net-error", case, list(impl), ["err", net_err])
+            def net_oracle(c, impl=impl, net_err=net_err, cshape=pre["shape"]):
+                if impl[0] == "ok":
+                    return {"net": c["net"], "xshape": c["xshape"], "canonical_shape": cshape, "network_on_canonical_array": net_err,
+                            "wrapper_returned_shape": impl[1],
+                            "what": "the network rejects the canonical 4-D array, yet the wrapper returned a result (it applied the network to something else)"}
+                return None
+
+            ctx.disagree("flax.flaxmap.net-error", case, list(impl), ["err", net_err], oracle=net_oracle)
         return
     try:
         mres = model.call("flaxmap", xshape=xs, yshape=[int(s) for s in y4.shape], n=int(y4.size))
@@ -349,14 +356,19 @@ def _corr_flaxmap(ctx, model):
             dt = np.dtype(key.split("/")[1])
             ch = int(key.split("/c")[1])
             H, W = (4, 6) if ctx.rng.random() < 0.5 else (6, 4)
+            if name in ("MoDLNet", "ODPNet"):
+                H, W = 4, 6  # fixed by the forward operator inside the network
             shapes = [(H, W), (H, W, ch), (1, H, W, ch), (2, H, W, ch), (4, 4, ch)]
             if ch == 1:
                 shapes.append((4, 4))
+            # rank 3 is ALWAYS (H, W, C): a last axis that is not the channel count of the network must be rejected by the
+            # network (channel mismatch), never re-interpreted as a batch of images
+            shapes += [(5, 4, 6), (3, 4, 4 + ch)]
             for shp in shapes:
                 _flaxmap_case(ctx, model, nets, key, rnd(shp, dt), oracle)
         else:
             shapes = [(3,), (1,), (4, 5), (1, 1), (2, 1), (4, 5, 2), (1, 5, 1), (4, 5, 1), (2, 4, 5, 1), (1, 4, 1, 1), (1, 4, 6, 3),
-                      (1, 1, 2, 3, 1), (2, 2, 2, 2, 2)]
+                      (1, 1, 2, 3, 1), (2, 2, 2, 2, 2), (3, 4, 6), (1, 2, 9), (2, 1, 5), (7, 1, 1)]
             for shp in shapes:
                 _flaxmap_case(ctx, model, nets, key, rnd(shp, np.float64), oracle)
     # block arrays are rejected
@@ -499,6 +511,42 @@ def _gen_ckpt_ops(rng, increasing):
     return ops
 
 
+def _ckpt_case_keep(ctx, model, ops, keep):
+    """`checkpoint_save` with another `max_to_keep` (the theorems hold for every value >= 1, the code fixes 3): the options
+    constructor seen by scico's module is substituted, everything else is the scico code path"""
+    import orbax.checkpoint as ocp
+    from scico.flax.train import checkpoints as ck
+
+    real = ocp.CheckpointManagerOptions
+
+    class _Opts:
+        def __call__(self, *a, **k):
+            if "max_to_keep" in k:
+                k["max_to_keep"] = keep
+            return real(*a, **k)
+
+    class _Ns:
+        def __getattr__(self, nm):
+            return _Opts() if nm == "CheckpointManagerOptions" else getattr(ocp, nm)
+
+    saved = ck.ocp
+    ck.ocp = _Ns()
+    try:
+        impl = _run_ckpt_impl(ops, False, False)
+    finally:
+        ck.ocp = saved
+    mres = model.call("ckpt", keep=keep, exists=False, ops=[{k: v for k, v in o.items() if k != "opt"} for o in ops])
+    case = {"kind": "ckpt", "ops": ops, "exists": False, "max_to_keep": keep}
+    ctx.case(case, ("ckpt-keep", keep, json.dumps(ops, sort_keys=True)))
+    ctx.count(f"ckpt:max_to_keep={keep}")
+    for i, (o, a, m) in enumerate(zip(ops, impl, mres)):
+        ai = {"dir": a.get("dir")} if o["k"] == "save" else {k: a[k] for k in ("tag", "err") if k in a}
+        mi = {"dir": m.get("dir")} if o["k"] == "save" else m
+        if ai != mi or a.get("identical") is False or ("err" in a and o["k"] == "save"):
+            ctx.disagree("flax.ckpt.keep", {**case, "at": i}, a, m)
+            return
+
+
 def _corr_ckpt(ctx, model):
     # boundary stream: missing / empty directory, both flags
     for exists in (False, True):
@@ -509,6 +557,9 @@ def _corr_ckpt(ctx, model):
     for i in range(ctx.n(8, 50)):
         inc = ctx.rng.random() < 0.7
         _ckpt_case(ctx, model, _gen_ckpt_ops(ctx.rng, inc), bool(ctx.rng.integers(0, 2)), bool(ctx.rng.integers(0, 2)))
+    for keep in ([1, 2, 5] if ctx.thorough else [int(ctx.rng.choice([1, 2, 5]))]):
+        for _ in range(ctx.n(1, 4)):
+            _ckpt_case_keep(ctx, model, _gen_ckpt_ops(ctx.rng, ctx.rng.random() < 0.6), keep)
 
 
 # ----------------------------------------------------------------------------------------------
@@ -530,17 +581,24 @@ def _train_chain(ctx, model, n, b, epochs_list, spc):
         for ep in epochs_list:
             conf = {"seed": 0, "opt_type": "SGD", "batch_size": b, "num_epochs": ep, "base_learning_rate": 1e-2, "warmup_epochs": 0,
                     "log_every_steps": 10**6, "log": False, "checkpointing": True, "workdir": wd, "steps_per_checkpoint": spc}
-            tr = BasicFlaxTrainer(conf, sflax.ConvBNNet(depth=2, channels=1, num_filters=2), ds, ds)
-            off = int(tr.state.step)
             executed = []
-            orig = tr.p_train_step
+            try:
+                tr = BasicFlaxTrainer(conf, sflax.ConvBNNet(depth=2, channels=1, num_filters=2), ds, ds)
+                off = int(tr.state.step)
+                orig = tr.p_train_step
 
-            def rec(state, batch, _orig=orig, _ex=executed):
-                _ex.append(int(np.asarray(jax.device_get(state.step)).ravel()[0]))
-                return _orig(state, batch)
+                def rec(state, batch, _orig=orig, _ex=executed):
+                    _ex.append(int(np.asarray(jax.device_get(state.step)).ravel()[0]))
+                    return _orig(state, batch)
 
-            tr.p_train_step = rec
-            tr.train()
+                tr.p_train_step = rec
+                tr.train()
+            except Exception as e:  # noqa: BLE001  (valid configuration: the trainer must not raise)
+                err = repr(e)[:200]
+                ctx.case({**case, "run_epochs": ep}, ("train", n, b, ep, spc, "raised"))
+                ctx.disagree("flax.train.raised", {**case, "run_epochs": ep}, err, "no exception",
+                             oracle=lambda c: {"case": c, "raised": err, "what": "BasicFlaxTrainer construction / train() raised on a valid configuration"})
+                return
             impl = {"executed": executed, "dir": _listing(wd), "offset": off, "N": int(tr.num_steps)}
             m = model.call("train", keep=3, dir=mdir, N=int(tr.num_steps), spc=spc)
             mm = {"executed": m["executed"], "dir": m["dir"], "offset": (m["executed"][0] if m["executed"] else impl["offset"]), "N": int(tr.num_steps)}
